@@ -12,6 +12,7 @@ from simkit.runner import Check, RunOutcome
 
 class C25(Check):
     PROPERTY = "C25"
+    USES_TEMPLATE_DB = True
     RULE = (
         "seeded histories of <= 20 operations on 1-2 handle names, shaped like the scheduler's own "
         "use (fork on the way into a task, apply_call on the way out, merge_handles, rollback "
